@@ -389,3 +389,44 @@ func VerifC20LoadMkTwice(dir string, content string, mode string, opts int) (sec
 	})
 	return
 }
+
+// VerifC20MainThenLoad runs pkglint's Main in this process (cwd = dir) and then,
+// at that point of the run, loads every file that is still in the file cache,
+// with the options it was cached with, next to a direct read of the file.
+// It returns one line per file whose Load differs from the disk.
+func VerifC20MainThenLoad(dir string, args []string) (stale []string, cached int, panicked string) {
+	old, err := os.Getwd()
+	if err != nil {
+		return nil, 0, "panic:getwd"
+	}
+	if err := os.Chdir(dir); err != nil {
+		return nil, 0, "panic:chdir"
+	}
+	defer func() { _ = os.Chdir(old) }()
+	G = NewPkglint(io.Discard, io.Discard)
+	panicked = VerifPanic(func() {
+		G.Main(io.Discard, io.Discard, append([]string{"pkglint"}, args...))
+	})
+	if panicked != "" {
+		return
+	}
+	type item struct {
+		filename CurrPath
+		options  LoadOptions
+	}
+	var items []item
+	for _, e := range G.fileCache.table {
+		items = append(items, item{e.lines.Filename, e.options})
+	}
+	cached = len(items)
+	panicked = VerifPanic(func() {
+		for _, it := range items {
+			fresh := verifC20Lines(verifC20Fresh(it.filename, it.options))
+			got := verifC20Lines(Load(it.filename, it.options))
+			if got != fresh {
+				stale = append(stale, it.filename.String()+" options "+strconv.Itoa(int(it.options))+": Load "+got+", file "+fresh)
+			}
+		}
+	})
+	return
+}
